@@ -41,21 +41,27 @@ type qroot struct {
 }
 
 type Trans struct {
-	fset      *token.FileSet
-	pkgs      []*Pkg
-	mutexVars map[*types.Var]*GuardSpec
-	fieldVars map[*types.Var]string
-	fieldRefy map[*types.Var]bool // field holds a reference (map, slice, pointer...)
-	specOf    map[*types.TypeName]*GuardSpec
-	funcs     map[*types.Func]*FuncInfo
-	order     []*FuncInfo
-	inlineIR  map[*types.Func]*Stmt
-	inProg    map[*types.Func]bool
-	entries   []*Entry
-	errs      []string
-	notes     []string
-	pathFlds  map[*types.Var]token.Position // fields that occur inside a source-level lock/field prefix
-	assigned  map[*types.Var]token.Position // fields assigned through a selector somewhere
+	fset        *token.FileSet
+	pkgs        []*Pkg
+	mutexVars   map[*types.Var]*GuardSpec
+	fieldVars   map[*types.Var]string
+	fieldRefy   map[*types.Var]bool // field holds a reference (map, slice, pointer...)
+	specOf      map[*types.TypeName]*GuardSpec
+	funcs       map[*types.Func]*FuncInfo
+	order       []*FuncInfo
+	inlineIR    map[*types.Func]*Stmt
+	inProg      map[*types.Func]bool
+	entries     []*Entry
+	errs        []string
+	notes       []string
+	funcParams  map[types.Object]*FuncInfo // func-typed parameters of declared functions
+	pubFields   map[*types.Var]string      // fields of publish-once structs (crossbar.Client) -> label
+	pubTypes    map[*types.TypeName]bool
+	pubInfos    map[*FuncInfo]*pubInfo
+	freshMemo   map[*types.Func]int           // 0 unknown, 1 in progress, 2 yes, 3 no
+	cbUnderLock []*FuncInfo                   // functions that invoke a callback parameter and take locks
+	pathFlds    map[*types.Var]token.Position // fields that occur inside a source-level lock/field prefix
+	assigned    map[*types.Var]token.Position // fields assigned through a selector somewhere
 }
 
 func (t *Trans) fail(pos token.Pos, format string, a ...interface{}) {
@@ -88,6 +94,11 @@ func (t *Trans) setup() {
 	t.inProg = map[*types.Func]bool{}
 	t.pathFlds = map[*types.Var]token.Position{}
 	t.assigned = map[*types.Var]token.Position{}
+	t.funcParams = map[types.Object]*FuncInfo{}
+	t.pubFields = map[*types.Var]string{}
+	t.pubTypes = map[*types.TypeName]bool{}
+	t.pubInfos = map[*FuncInfo]*pubInfo{}
+	t.freshMemo = map[*types.Func]int{}
 	byDir := map[string]*Pkg{}
 	for _, p := range t.pkgs {
 		byDir[p.Dir] = p
@@ -174,6 +185,37 @@ func (t *Trans) setup() {
 				t.funcs[obj] = fi
 				t.order = append(t.order, fi)
 			}
+		}
+	}
+	for _, fi := range t.order {
+		for _, f := range fi.Decl.Type.Params.List {
+			for _, n := range f.Names {
+				if o := fi.Pkg.Info.Defs[n]; o != nil {
+					if _, isFn := o.Type().Underlying().(*types.Signature); isFn {
+						t.funcParams[o] = fi
+					}
+				}
+			}
+		}
+	}
+	// publish-once structs: fields are written only while the object is still private to its constructor
+	for _, ps := range publishOnce {
+		p := byDir[ps.PkgDir]
+		if p == nil {
+			continue
+		}
+		obj, _ := p.Types.Scope().Lookup(ps.Type).(*types.TypeName)
+		if obj == nil {
+			t.errs = append(t.errs, fmt.Sprintf("publish-once table: type %s.%s no longer exists", ps.PkgDir, ps.Type))
+			continue
+		}
+		st, _ := obj.Type().Underlying().(*types.Struct)
+		if st == nil {
+			continue
+		}
+		t.pubTypes[obj] = true
+		for i := 0; i < st.NumFields(); i++ {
+			t.pubFields[st.Field(i)] = ps.Type + "." + st.Field(i).Name() + " (after publication)"
 		}
 	}
 	// uses: direct call / go target / value
